@@ -416,8 +416,12 @@ def smtlibscript_from_formula(formula: FNode, logic: Optional[Union[str, int, Lo
 
     # Declare all types
     types = get_env().typeso.get_types(formula, custom_only=True)
+    declared_sorts = set()
     for type_ in types:
-        script.add(name=smtcmd.DECLARE_SORT, args=[type_.decl])
+        # Instances of a parametric sort share one declaration
+        if (type_.decl.name, type_.decl.arity) not in declared_sorts:
+            declared_sorts.add((type_.decl.name, type_.decl.arity))
+            script.add(name=smtcmd.DECLARE_SORT, args=[type_.decl])
 
     deps = formula.get_free_variables()
     # Declare all variables
